@@ -14,6 +14,7 @@ import fnmatch
 import tempfile
 import subprocess
 import traceback
+import copy as _copy
 import multiprocessing as mp
 
 VERIF = os.path.dirname(os.path.dirname(os.path.abspath(__file__)))
@@ -77,7 +78,7 @@ def work(arg):
             E = SymEnv(tt, qtimeout_ms=opts.get('final_timeout_ms', 30000), scalar_mode=opts.get('scalar_mode', 'Z'))
             holder['E'] = E
             _setup(opts.get('setup') or {}, opts.get('scalar_mode', 'Z'))
-            fn(E, case['s'])
+            fn(E, _copy.deepcopy(case['s']))        # the code under test may write into argument lists
             return None
 
         signal.signal(signal.SIGALRM, _alarm)
@@ -157,7 +158,7 @@ def exact_trace(arg):
             E = ExactEnv(tt, seed, scalar_mode=opts.get('scalar_mode', 'Z'))
             holder['E'] = E
             _setup(opts.get('setup') or {}, opts.get('scalar_mode', 'Z'))
-            SCEN[case['scen']](E, case['s'])
+            SCEN[case['scen']](E, _copy.deepcopy(case['s']))
 
         ex = Explorer(logic=None, qtimeout_ms=5000, max_paths=2)
         ex.exact = True
